@@ -66,7 +66,7 @@ AllDone(P, cur)  == \A i \in Active(P) : ~HasHead(P, cur, i)
 (* ---------------------------------------------------------------------------------------------------------
    What an observer of the ports sees is only the Send steps: o = [port, m, at] (at = microseconds since just
    before the call).  The track is NOT observable (identical messages occur in several tracks).
-   Via(P, cur, i, p, o) is the state after  Skip(i)^* ; Skip(j)^* for the other tracks ; Send(i) of event p
+   Via(P, A, cur, i, p, o) is the state after  Skip(i)^* ; Skip(j)^* for the other tracks ; Send(i) of event p
    explaining o, or <<>> if there is no such run.  The skips are the forced ones: in track i everything
    between the head and p; in every other track j exactly the heads scheduled before event p (a head
    scheduled earlier would disable Send(i); skipping more never enables anything more, it only gives up the
@@ -85,18 +85,18 @@ Matches(P, i, p, o) ==
   /\ PortOf(P, i) = o.port
   /\ e.us <= o.at                        \* never early; no upper bound (lateness is not constrained)
 
-Via(P, cur, i, p, o) ==
-  IF ~(i \in Active(P) /\ p >= cur[i] /\ p <= Len(P.tracks[i])) THEN <<>>
+\* A = Active(P), passed in so that callers evaluate it once
+Via(P, A, cur, i, p, o) ==
+  IF ~(i \in A /\ p >= cur[i] /\ p <= Len(P.tracks[i])) THEN <<>>
   ELSE IF ~(Matches(P, i, p, o) /\ Skippable(P, i, cur[i], p)) THEN <<>>
   ELSE LET t   == P.tracks[i][p].us
            nxt == [j \in 1..NTracks(P) |->
                      IF j = i THEN p + 1
-                     ELSE IF j \in Active(P) THEN SkipTo(P, j, cur[j], t) ELSE cur[j]]
-       IN IF \A j \in Active(P) \ {i} : Skippable(P, j, cur[j], nxt[j]) THEN <<nxt>> ELSE <<>>
+                     ELSE IF j \in A THEN SkipTo(P, j, cur[j], t) ELSE cur[j]]
+       IN IF \A j \in A \ {i} : Skippable(P, j, cur[j], nxt[j]) THEN <<nxt>> ELSE <<>>
 
 \* all states in which the observed send o can leave the player from state cur
-Succ(P, cur, o) ==
-  UNION {{Via(P, cur, i, p, o)[1]} : <<i, p>> \in
-           {ip \in UNION {{<<i, p>> : p \in cur[i]..Len(P.tracks[i])} : i \in Active(P)} :
-              Via(P, cur, ip[1], ip[2], o) # <<>>}}
+Succ(P, A, cur, o) ==
+  LET cand == UNION {{<<i, p>> : p \in {q \in cur[i]..Len(P.tracks[i]) : P.tracks[i][q].m = o.m}} : i \in A}
+  IN UNION {LET v == Via(P, A, cur, ip[1], ip[2], o) IN IF v = <<>> THEN {} ELSE {v[1]} : ip \in cand}
 =============================================================================
